@@ -143,6 +143,25 @@ def run(ctx) -> None:
                 cond = norm(l.test) if isinstance(l, ast.While) else norm(l)
                 if "thresh" in cond:
                     whole = True
+        # the inner walk must follow NEIGHBOUR gaps of the walking index (E[j] − E[j−1]), not distances to the edge band
+        for s_ in stores:
+            for l in [l for l in enclosing_all(pm, s_, ast.While) if in_body(exc, l)]:
+                walkers = {a.target.id for a in ast.walk(l) if isinstance(a, ast.AugAssign) and isinstance(a.target, ast.Name)}
+                gaps = [c for c in ast.walk(l.test) if isinstance(c, ast.Compare) and "thresh" in norm(c)
+                        and isinstance(c.left, ast.BinOp) and isinstance(c.left.op, ast.Sub)]
+                for c in gaps:
+                    a, b = c.left.left, c.left.right
+                    oknb = isinstance(a, ast.Subscript) and isinstance(b, ast.Subscript) and norm(a.value) == norm(b.value) == "E"
+                    if oknb:
+                        from ..algebra import Rat, to_rat
+                        env_ = lambda x: Rat.sym(x.id) if isinstance(x, ast.Name) else None
+                        ia, ib = to_rat(a.slice, env_), to_rat(b.slice, env_)
+                        oknb = (ia - ib).equals(Rat.const(1)) and bool(walkers) and \
+                            all(w in ia.n.symbols() and w in ib.n.symbols() for w in walkers)
+                    r2.check(oknb, f"{direction}/exclude: the walk tests the gap between neighbouring bands of the walking index", f, l,
+                             f"{direction} edge: the inner walk tests `{norm1(c)}`: not the gap between neighbouring bands "
+                             f"E[j] − E[j−1] of the walking index {sorted(walkers)}; a chain of bands each closer than thresh to its "
+                             f"neighbour but farther from the edge band is split")
         r2.check(whole, f"{direction}/exclude: the whole cut multiplet is removed", f, stores[0] if stores else ifs[0],
                  f"{direction} edge, include_degen=False: only one band (`{norm1(stores[0]) if stores else '?'}` then break) is "
                  f"removed; for a multiplet of three or more bands cut by the window edge the remaining members stay inside "
@@ -210,6 +229,8 @@ SELFTEST = [
     V("upper edge removes one band only (original defect)", UT, _UP_FIX, "                inside[i] = False\n                break\n",
       "fire", "R15.2"),
     V("lower edge removes one band only (original defect)", UT, _LO_FIX, "                inside[i] = False\n                break\n",
+      "fire", "R15.2"),
+    V("walk anchored to the edge band (seeded C15-m1)", UT, "while j > 0 and E[j] - E[j - 1] < thresh:", "while j > 0 and E[i] - E[j - 1] < thresh:",
       "fire", "R15.2"),
     V("include arm stops after one band", UT, "            if include_degen:\n                inside[i + 1] = True\n",
       "            if include_degen:\n                inside[i + 1] = True\n                break\n", "fire", "R15.2"),
